@@ -191,6 +191,28 @@ def main(argv):
     except RuntimeError as e:
         ffail.append({"program": "flip", "schedule": "", "failures": [{"what": "driver run", "detail": str(e)[-500:]}]})
     chk.obligation("oracle: disposing a boundary never panics when a cleanup re-runs an effect that takes a suspense guard for it (%d scenarios)" % len(fcases), not ffail, str(ffail[:1]))
+    # a scope disposed right after the tree was built, BEFORE the executor's first step (oracle only: the LTS has no state between
+    # spawn and first poll): no task under it is ever polled, nothing panics, surviving boundaries are released (seed C14-h)
+    ecases = []
+    for prog in BASES:
+        tasks, _, scope_parent = asyncgen.info(prog)
+        gos = [("go", t) for t, (n, _, _) in tasks.items() for _ in range(n)]
+        for sid in scope_parent:
+            ecases.append((prog, [("early", sid)] + gos))
+            ecases.append((prog, [("early", sid)] + list(reversed(gos))))
+    efail = []
+    try:
+        eimpl = asyncgen.run_impl(binp, ecases)
+        for (prog, steps), lines in zip(ecases, eimpl):
+            body = [l for l in lines if not l.startswith(("again", "end"))]
+            f = oracle(prog, [("dispose", steps[0][1])] + steps[1:], ["log  ; load  ; glob 0"] + body)
+            f += [{"what": "panic", "event": l} for l in lines if "PANIC" in l and not any("PANIC" in str(x) for x in f)]
+            if f:
+                efail.append({"program": asyncgen.sx_nodes(prog), "schedule": asyncgen.sx_steps(steps), "failures": f[:3], "output": lines[:4]})
+    except RuntimeError as e:
+        efail.append({"program": "early", "schedule": "", "failures": [{"what": "driver run", "detail": str(e)[-500:]}]})
+    efail.sort(key=lambda x: len(x["program"]) + len(x["schedule"]))
+    chk.obligation("oracle: a scope disposed before the executor's first step: none of its tasks is ever polled, no panic, survivors released (%d scenarios)" % len(ecases), not efail, str(efail[:1]))
     # a waiter (until_finished) that outlives the boundary it waits for: the disposal and everything after it must not panic, and the
     # waiter must be released (a boundary that is gone is not loading)
     waits = [[("scope", 9, [("sus", 1, [("task", 1, 2)])]), ("wait", 5, 1)],
@@ -243,7 +265,7 @@ def main(argv):
                    not gmis and not any(b.startswith("model evaluation (global") for b in broken), str(gmis[:1]))
     if gmis:
         broken.append("correspondence (global flag) differs on %d scenarios" % len(gmis))
-    mism, orfail = [], list(afail) + list(ufail) + list(ffail) + list(wfail)
+    mism, orfail = [], list(afail) + list(ufail) + list(ffail) + list(efail) + list(wfail)
     for i, ((prog, steps), lines) in enumerate(zip(cases, impl)):
         key = asyncgen.sx_nodes(prog) + asyncgen.sx_steps(steps)
         fails = oracle(prog, steps, lines, glob[i] if i < len(glob) else None)
